@@ -124,6 +124,15 @@ func (it *NativeIterator) Merge(oldval []byte) (val []byte, err error) {
 	oldTS := h.Timestamp
 	newTS := header.Timestamp(entry.TimestampNano)
 	actualOldVal := appVal
+	if newTS == oldTS && len(actualOldVal) == 0 && len(entryVal) == 0 && !h.Flags.IsDeleted() &&
+		(entry.MaskedFlags().IsDeleted() || it.FormatVersion < 2) {
+		// Same timestamp and both application values empty, but the stored
+		// entry is live and the snapshot entry is a deletion: the value
+		// comparison below cannot tell these apart and would keep whichever
+		// came first. Let the deletion win, so that the result does not depend
+		// on the merge order.
+		return it.addHeader(entryVal, newTS, entry.MaskedFlags(), false)
+	}
 	if newTS == 0 {
 		// Special handling for main to shadow copy that uses a default timestamp
 		if bytes.Equal(actualOldVal, entryVal) {
